@@ -71,19 +71,61 @@ def attrLoop (r : SOuter ν) : XState ν → List Attr → Except String (XState
 
 /-- `ExtractAttribute::extractor` with the value populator: the parser state after the attribute
     walk and the value of the `attrs` field (if there is one and it could be built) -/
+def attrsValue (r : SOuter ν) (p : PState ν) (fwd : List Attr) : Except String (PState ν × Option ν) :=
+  match r.attrsField with
+  | none => .ok (p, none)
+  | some mk =>
+      match mk fwd with
+      | .ok v => .ok (p, some v)
+      | .err e => .ok (p.push e, none)
+      | .panic m => .error m
+
 def extract (r : SOuter ν) (attrs : List Attr) : Except String (PState ν × Option ν) :=
   let walked : Except String (XState ν) :=
     if !(r.willParseAny || r.willFwdAny) then .ok {} else attrLoop r {} attrs
   match walked with
   | .error m => .error m
+  | .ok st => attrsValue r st.p st.fwd
+
+/-- the `?`-chained members of the literal (generics, body): the first failure is returned -/
+def lateValues : List (String × Outcome ν) → Outcome (List (String × ν))
+  | [] => .ok []
+  | (k, o) :: rest => match o with
+      | .ok v => (lateValues rest).map ((k, v) :: ·)
+      | .err e => .err e
+      | .panic m => .panic m
+
+/-- `attrs: attrs.expect("Errors were already checked")` -/
+def attrsPart (r : SOuter ν) (attrsVal : Option ν) : Outcome (List (String × ν)) :=
+  match r.attrsField, attrsVal with
+  | none, _ => .ok []
+  | some _, some v => .ok [("attrs", v)]
+  | some _, none => .panic "Errors were already checked"
+
+/-- the struct literal, once the accumulated errors have been checked -/
+def assemble (r : SOuter ν) (st : PState ν) (attrsVal : Option ν)
+    (lateParts : List (String × Outcome ν)) (earlyParts : List (String × ν))
+    (build : List (String × ν) → ν) : Outcome ν :=
+  match attrsPart r attrsVal, lateValues lateParts, initFields r.fields st r.fields.fields with
+  | .ok a, .ok l, .ok inits => r.fields.post (build (earlyParts ++ a ++ l ++ inits))
+  | .panic m, _, _ => .panic m
+  | _, .panic m, _ => .panic m
+  | _, _, .panic m => .panic m
+  | .err e, _, _ => .err e
+  | _, .err e, _ => .err e
+  | _, _, .err e => .err e
+
+/-- `require_fields` + `check_errors` + the literal, after the validation verdict was pushed -/
+def finishChecked (r : SOuter ν) (st : PState ν) (attrsVal : Option ν)
+    (lateParts : List (String × Outcome ν)) (earlyParts : List (String × ν))
+    (build : List (String × ν) → ν) : Outcome ν :=
+  match flattenInit r.fields st with
+  | .error m => .panic m
   | .ok st =>
-      match r.attrsField with
-      | none => .ok (st.p, none)
-      | some mk =>
-          match mk st.fwd with
-          | .ok v => .ok (st.p, some v)
-          | .err e => .ok (st.p.push e, none)
-          | .panic m => .error m
+    let st := checkMissing r.fields.fields st
+    match st.errs with
+    | _ :: _ => Err.bundleErr st.errs
+    | [] => assemble r st attrsVal lateParts earlyParts build
 
 /-- what follows the attribute walk in every element-level `from_*`:
     optional shape validation (pushed into the accumulator), `require_fields`, `check_errors`,
@@ -94,39 +136,16 @@ def finishOuter (r : SOuter ν) (st : PState ν) (attrsVal : Option ν) (validat
     (build : List (String × ν) → ν) : Outcome ν :=
   match validate with
   | .panic m => .panic m
-  | v =>
-    let st := match v with
-      | .err e => st.push e
-      | _ => st
-    match flattenInit r.fields st with
-    | .error m => .panic m
-    | .ok st =>
-      let st := checkMissing r.fields.fields st
-      match st.errs with
-      | _ :: _ => Err.bundleErr st.errs
-      | [] =>
-          -- `attrs: attrs.expect("Errors were already checked")`
-          let attrsPart : Outcome (List (String × ν)) :=
-            match r.attrsField, attrsVal with
-            | none, _ => .ok []
-            | some _, some v => .ok [("attrs", v)]
-            | some _, none => .panic "Errors were already checked"
-          let rec late : List (String × Outcome ν) → Outcome (List (String × ν))
-            | [] => .ok []
-            | (k, o) :: rest => match o with
-                | .ok v => (late rest).map ((k, v) :: ·)
-                | .err e => .err e
-                | .panic m => .panic m
-          match attrsPart, late lateParts, initFields r.fields st r.fields.fields with
-          | .ok a, .ok l, .ok inits => r.fields.post (build (earlyParts ++ a ++ l ++ inits))
-          | .panic m, _, _ => .panic m
-          | _, .panic m, _ => .panic m
-          | _, _, .panic m => .panic m
-          | .err e, _, _ => .err e
-          | _, .err e, _ => .err e
-          | _, _, .err e => .err e
+  | .err e => finishChecked r (st.push e) attrsVal lateParts earlyParts build
+  | .ok _ => finishChecked r st attrsVal lateParts earlyParts build
 
 /-! ### body conversion: `ast::Data::try_from`, `ast::Fields::try_from` -/
+
+/-- `err.at(ident)` for a field that has an identifier -/
+def located (f : FieldD) (e : Err) : Err :=
+  match f.ident with
+  | some id => e.at id
+  | none => e
 
 /-- `Fields::<F>::try_from`: every field converted, failures accumulated, named ones located -/
 def fieldsTryFrom (conv : FieldD → Outcome ν) : List FieldD → List ν → List Err → Except String (List ν × List Err)
@@ -134,11 +153,7 @@ def fieldsTryFrom (conv : FieldD → Outcome ν) : List FieldD → List ν → L
   | f :: rest, vs, errs =>
       match conv f with
       | .ok v => fieldsTryFrom conv rest (vs ++ [v]) errs
-      | .err e =>
-          let e := match f.ident with
-            | some id => e.at id
-            | none => e
-          fieldsTryFrom conv rest vs (errs ++ [e])
+      | .err e => fieldsTryFrom conv rest vs (errs ++ [located f e])
       | .panic m => .error m
 
 def variantsTryFrom (conv : VariantD → Outcome ν) : List VariantD → List ν → List Err → Except String (List ν × List Err)
